@@ -1,0 +1,27 @@
+"""Verification hook (inactive unless the environment variable
+``PB_BSS_VERIF=1`` is set when ``pb_bss`` is imported).
+
+Every mixture model trainer reports the state of its EM loop after each
+M-step to the registered callbacks.  Nothing is computed, copied or stored
+when the guard is off or no callback is registered.
+"""
+import os
+
+ENABLED = os.environ.get('PB_BSS_VERIF') == '1'
+
+_callbacks = []
+
+
+def register(callback):
+    _callbacks.append(callback)
+    return callback
+
+
+def unregister(callback):
+    if callback in _callbacks:
+        _callbacks.remove(callback)
+
+
+def report(**kwargs):
+    for callback in list(_callbacks):
+        callback(**kwargs)
